@@ -21,6 +21,8 @@ type ResDef struct {
 	PerCID bool `json:"percid,omitempty"`
 	// Missing: get requests are answered with system.notFound.
 	Missing bool `json:"missing,omitempty"`
+	// AnyQuery: every raw query is accepted and normalises to itself.
+	AnyQuery bool `json:"anyquery,omitempty"`
 }
 
 // Variant is the state of one (name, normalised query) resource.
@@ -114,6 +116,9 @@ func (s *Service) defFor(name string, cids []string) *ResDef {
 // Norm returns the normalised query for a raw query on a resource, ok=false
 // if the service rejects the query.
 func (d *ResDef) Norm(raw string) (string, bool) {
+	if d.AnyQuery {
+		return raw, true
+	}
 	if d.QueryMap == nil {
 		return "", true
 	}
@@ -131,14 +136,14 @@ func (s *Service) variant(d *ResDef, name, norm string) *Variant {
 	if d.Type == "collection" {
 		v.Type = 'c'
 		v.Coll = cloneColl(d.Coll)
-		if norm != "" {
+		if norm != "" && !d.AnyQuery {
 			// make variants differ a little
 			v.Coll = append(v.Coll, Prim(jstr("q:"+norm)))
 		}
 	} else {
 		v.Type = 'm'
 		v.Model = cloneModel(d.Model)
-		if norm != "" {
+		if norm != "" && !d.AnyQuery {
 			v.Model["q"] = Prim(jstr(norm))
 		}
 	}
